@@ -23,7 +23,7 @@ def both(hw, fmt, old, new, files=None):
     dev = E.device(hw)
     from annet import patching
     from annet.annlib.diff import gen_pre_as_diff
-    out = {"fcmds": [], "dcmds": [], "fdiff": [], "ddiff": [], "ferr": False, "derr": False, "wlines": [], "dlines": [], "fview": [], "dview": [], "wview": [], "dview2": []}
+    out = {"fcmds": [], "dcmds": [], "fdiff": [], "ddiff": [], "ferr": False, "derr": False, "wlines": [], "dlines": [], "fview": [], "dview": [], "wview": [], "dview2": [], "plines": []}
     dpatch = None
     try:
         ddiff, dpatch = api._diff_and_patch(dev, E.cp(old), E.cp(new), None, None, False)
@@ -56,6 +56,20 @@ def both(hw, fmt, old, new, files=None):
             text = res[0][1] if res else ""
             out["wlines"] = [ln.split() for ln in text.split("\n") if ln.strip()]
             out["dlines"] = [ln.split() for ln in api._format_patch_blocks(dpatch2, hw, "  ").split("\n") if ln.strip()]
+            # `annet patch` itself: the production worker (res_diff_patch -> _diff_and_patch -> _format_patch_blocks) on the same pair
+            from annet.types import OldNewResult
+            from annet import gen as anngen
+            from .. import genrun
+            pdev = genrun.Dev(hw)
+            saved_on = anngen.old_new
+            anngen.old_new = lambda *a, **k: iter([OldNewResult(device=pdev, old=E.cp(held[0]), new=E.cp(held[1]))])
+            try:
+                pargs = types.SimpleNamespace(config="running", clear=False, acl_safe=False, add_comments=False, indent="  ")
+                pres = list(api._patch_worker(1, pargs, None, None, None))
+            finally:
+                anngen.old_new = saved_on
+            ptext = pres[0][1] if pres else ""
+            out["plines"] = [ln.split() for ln in ptext.split("\n") if ln.strip()]
             # ... and `annet file-diff` (file_diff_worker) prints the device-mode diff of what the files hold
             dargs = types.SimpleNamespace(hw=hw, show_rules=False, indent="  ", no_color=True)
             dres = list(api.file_diff_worker(files, dargs))
@@ -118,7 +132,7 @@ def run(ctx):
         try:
             rec.update(both(hw, fmt, old, new, files if (disk or (disk is None and len(recs) % 3 == 0)) else None))
         except Exception as e:
-            rec.update({"fcmds": [], "dcmds": [], "fdiff": [], "ddiff": [], "ferr": True, "derr": True, "wlines": [], "dlines": [], "fview": [], "dview": [], "wview": [], "dview2": [],
+            rec.update({"fcmds": [], "dcmds": [], "fdiff": [], "ddiff": [], "ferr": True, "derr": True, "wlines": [], "dlines": [], "fview": [], "dview": [], "wview": [], "dview2": [], "plines": [],
                         "exc": repr(e)})
         recs.append(rec)
         ctx.count()
@@ -173,7 +187,7 @@ def run(ctx):
                        (["switchport trunk allowed vlan 2-4", "description x"], ["switchport trunk allowed vlan all", "description y"])):
             add("raises", hw.vendor, hw, od([("hostname a", od()), (iface, od((r, od()) for r in lo))]),
                 od([("hostname b", od()), (iface, od((r, od()) for r in ln))]))
-    slim = [{k: r[k] for k in ("id", "fcmds", "dcmds", "fdiff", "ddiff", "ferr", "derr", "wlines", "dlines", "fview", "dview", "wview", "dview2")} for r in recs]
+    slim = [{k: r[k] for k in ("id", "fcmds", "dcmds", "fdiff", "ddiff", "ferr", "derr", "wlines", "dlines", "fview", "dview", "wview", "dview2", "plines")} for r in recs]
     verd = ctx.judge("trace/Trace_FrontEnds.tla", "trace/Trace.cfg", slim, shards=16)
     for r in recs:
         v = verd[r["id"]]
